@@ -116,7 +116,7 @@ def showPad : Pad → Nat
 def showRes (r : Res) : List String :=
   let nlocs := (r.st.out.filter fun c => c.inLoc && c.tag == .tok && c.bytes == [70]).length
   [s!"text={toHex r.st.text} status={showStatus r.status} indent={r.st.indent} nl={if r.st.nl then 1 else 0} pad={showPad r.st.pad} base={r.st.fmt.base} fill={r.st.fmt.fill} width={r.st.fmt.width}",
-   s!"# nlocs={nlocs} chunks={r.st.out.length}"]
+   s!"# nlocs={nlocs} located={r.st.located} chunks={r.st.out.length}"]
 
 /-- Fuel handed to the model: 8·(nodes + 1) — the bound of theorem `C18_fuel` with rank ≤ number of nodes. -/
 def St.fuel (s : St) : Nat := 8 * (s.nodes.size + 1)
